@@ -391,8 +391,11 @@ func (c *Ctx) execSelect(fs *FState, x *ssa.Select) *FState {
 		c.setReg(fs, x, &Tuple{v: vals})
 		return fs
 	}
-	// deterministic choice: first ready case (events before errors); harnesses make at most one channel ready at a time
+	// deterministic choice among the ready cases, directed by the harness (vselectOrder): the first in source order, or the last
 	pick := ready[0]
+	if c.selectOrder == 1 {
+		pick = ready[len(ready)-1]
+	}
 	vals := []Value{tt.Const(64, uint64(pick)), tt.T}
 	for i, s := range x.States {
 		et := s.Chan.Type().Underlying().(*types.Chan).Elem()
